@@ -12,6 +12,7 @@
 # include <new>
 # include <cstring>
 # include <cstdlib>
+# include <climits>
 # include "output.h"
 # include "types.h"
 #else
@@ -630,7 +631,7 @@ public:
 		else if (pos > len) {
 			len = pos;
 		}
-		if (!reserve(len + 1)) {
+		if (len == LONG_MAX || !reserve(len + 1)) {
 			return 0;
 		}
 		content<T> *d = _ref.instance();
@@ -686,6 +687,10 @@ public:
 		/* relative to current length */
 		if (len < 0
 		    && (len += length()) < 0) {
+			return false;
+		}
+		/* byte size must be representable */
+		if (static_cast<size_t>(len) > (static_cast<size_t>(-1) / 2) / sizeof(T)) {
 			return false;
 		}
 		if (!(c = _ref.detach())) {
@@ -774,7 +779,7 @@ public:
 		else if (pos > len) {
 			len = pos;
 		}
-		if (!this->reserve(len + 1)) {
+		if (len == LONG_MAX || !this->reserve(len + 1)) {
 			return 0;
 		}
 		void *d = this->_ref.instance()->insert(pos);
